@@ -42,6 +42,7 @@ class Report:
         self.sites: Dict[str, int] = {}  # rule -> instances matched (vacuity guard)
         self.functions: set = set()
         self.extra: Dict[str, Any] = {}
+        self.alias: Dict[str, str] = {}  # obligation-id renaming when one driver reuses another's obligations
 
     # ------------------------------------------------------------------
     def touch(self, fi: FuncInfo) -> FuncInfo:
@@ -66,6 +67,7 @@ class Report:
         if not isinstance(construct, str):
             construct = str(construct)
         line = getattr(node, "lineno", None) if node is not None else None
+        oid = self.alias.get(oid, oid)
         rec = {
             "obligation": oid,
             "rule": rule,
